@@ -264,8 +264,12 @@ def check_super(c, case, res):
     singles = [steps(res["j%d" % j][1]) for j in range(K)]
     n = case["sysm"]["natoms"]
     tolf = (K + 3) * EPS
+    tabs = 0.0
     if case["abf_prev"]:
+        # the abf samples are (total force - applied force): the subtraction leaves a residue of the order of
+        # 2^-52 x |applied force| (forces up to ~1e3 here) that depends on which other biases are present
         tolf = 1e-12
+        tabs = 1e-12
     nonzero = False
     for t in range(case["T"] + 1):
         ej = joint[t]
@@ -284,7 +288,7 @@ def check_super(c, case, res):
         # energy
         terms = [energy(s[t]) for s in singles]
         E = energy(ej)
-        if not (abs(E - sum(terms)) <= tolf * sum(abs(x) for x in terms)):
+        if not (abs(E - sum(terms)) <= tolf * sum(abs(x) for x in terms) + tabs):
             # is the discrepancy entirely the energy of the non-biasing members (which should not be reported at all)?
             nbj = [j for j, k in enumerate(kinds) if k in NONBIASING]
             E_b = E - sum(fl(ej["bias"][case["biases"][j]["name"]]["e"]) for j in nbj)
@@ -303,7 +307,7 @@ def check_super(c, case, res):
                 scale = sum(sum(abs(fl(s[t]["af"][a][dd])) for dd in range(3)) for s in singles)
                 if Fj != 0.0:
                     nonzero = True
-                if not math.isfinite(Fj) or abs(Fj - sum(ft)) > tolf * scale:
+                if not math.isfinite(Fj) or abs(Fj - sum(ft)) > tolf * scale + tabs:
                     if viol(c, "superposition_force:" + kkey, "step %d atom %d coord %d: joint force %.17g, sum of separate forces %.17g (%s)" % (
                             t, a + 1, d, Fj, sum(ft), ft), files, payload):
                         return False
@@ -557,7 +561,8 @@ def run(tier, replay):
               "position history, per step and atom; distinct = multiset of bias kinds of a subset whose joint forces are non-zero.  MTS: tuples "
               "(bias kind, bias factor, variable kind, variable factor) checked against factor-1 single-bias references over 21 steps from a random first step")
     c.assumptions = ["positions are imposed, so history-dependent biases that do not read forces evolve identically alone and together",
-                     "abf is combined with other biases only in the same-step convention, or with subtractAppliedForce and biases on its own variable",
+                     "abf is combined with other biases only in the same-step convention, or with subtractAppliedForce and biases on its own variable "
+                     "(then with relative and absolute tolerance 1e-12, the residue of the subtraction in its samples)",
                      "tolerance (K+3) 2^-52 sum|terms| for K summed contributions (one rounding per product and per addition on either side)"]
     common.vbuild.ensure("plain", tools=["esim"])
     nsup = 160 if tier == "quick" else 2500
